@@ -189,6 +189,13 @@ func (core *JApiCore) addTagDescription(d *directive.Directive, name, descriptio
 	return nil
 }
 
+// addTags checks the Tags directive itself. Which tags an interaction gets is
+// decided when the method is added (its own Tags, or those of its URL); a Tags
+// directive that no method falls back to would never be looked at otherwise.
+func (core *JApiCore) addTags(d *directive.Directive) *jerr.JApiError {
+	return core.catalog.CheckTags(d)
+}
+
 func (core *JApiCore) addServer(d *directive.Directive) *jerr.JApiError {
 	name := d.NamedParameter("Name")
 	if name == "" {
